@@ -660,16 +660,26 @@ func checkWith(goroutinesFor func(i int) int) func(c sim.ChainCase) error {
 			}
 			return nil
 		}
+		// a client uses the updates it is given: it keeps a copy of every element (also of the ones a block spends or
+		// revises) and refreshes the copies with each update's UpdateElementProof. Using an update is reading it: the
+		// retained updates must still be what they were, whatever the client's elements go through afterwards.
+		client := &sim.ProofFollower{Held: map[uint64]types.StateElement{}}
 		hooks := sim.Hooks{
 			AfterApply: func(ch *sim.Chain, st *sim.Step, parent consensus.State, au consensus.ApplyUpdate) error {
 				if err := stillSame(fmt.Sprintf("after the block at height %d was applied", ch.Height())); err != nil {
 					return err
 				}
-				if js, err := json.Marshal(au); err == nil {
+				var js []byte
+				var jerr error
+				if js, jerr = json.Marshal(au); jerr == nil {
 					retained = append(retained, kept{au, string(js), ch.Height()})
 					if len(retained) > 4 {
 						retained = retained[1:]
 					}
+				}
+				client.Follow(au, ch.Tip().Elements.NumLeaves, ch.Store)
+				if err := stillSame(fmt.Sprintf("when a client refreshed its elements with the update for height %d", ch.Height())); err != nil {
+					return err
 				}
 				return nil
 			},
